@@ -65,7 +65,7 @@ func checkC08(x *X, c *Case, strict bool) *Outcome {
 	want := vrt.Canon(ref.Value)
 	for _, pk := range livePkgs(x.G) {
 		runs := []Case{plain}
-		if !pk.Optimized && !(ref.Stats.LabelReeval > 0 && !strict && x.KF["KF-C06-MEMOLABEL"]) {
+		if !pk.Optimized && !(memoUnsound(x, ref, strict)) {
 			m := plain
 			m.Opts.Memoize = true
 			runs = append(runs, m)
